@@ -297,7 +297,9 @@ def step (ds : DblSem) (s : State) : Op → Option State
     if v < nvars ∧ allLt lf.vars ∧ mutOk v p lf then
       (match p, lf with
        | [], .assign (.var w) => some (assignVar s v w)
-       | [], .set e => if (e.eval s.read).type = 0 then none else some (setVal s v (e.eval s.read))
+       | p, .set e =>
+         -- there is no typed `operator=` for null
+         if (e.eval s.read).type = 0 then none else mutate ds s v p (.set (e.eval s.read))
        | p, lf => mutate ds s v p (lf.eval s.read))
     else none
   | .get v w p => if v < nvars ∧ w < nvars then opGet s v w p else none
